@@ -20,17 +20,18 @@ import (
 // of mapper.go is covered) plus Audio.EndMachineCycle and the verif hook VerifGet/VerifSetTicks.
 //
 // ops:
-//   reset <a>           new Audio; a bit0 = left output attached, bit1 = right output attached -> NR52
-//   w <addr4> <val2>    Mapper.Write (FF10-FF3F)                                               -> NR52 after the write
-//   r <addr4>           Mapper.Read  (FF10-FF3F)                                               -> value
-//   c <n>               n x EndMachineCycle -> NR52 #left #right cksumL cksumR bad ; internals
-//                       (cksum over round(sample*19200) of the samples emitted during the op,
-//                        bad = samples that are not finite or outside [0,1))
-//   st                  -> "st ; internals"
-//   wf                  -> dutyIndex1 dutyIndex2 wavePosition lfsr
-//   m <ch> <k> <limit>  run machine cycles until >= k waveform steps of channel ch were seen
-//                       -> first stepsAtFirst total steps  |  limit <steps>
-//   tk <hex>            VerifSetTicks                                                          -> ok
+//
+//	reset <a>           new Audio; a bit0 = left output attached, bit1 = right output attached -> NR52
+//	w <addr4> <val2>    Mapper.Write (FF10-FF3F)                                               -> NR52 after the write
+//	r <addr4>           Mapper.Read  (FF10-FF3F)                                               -> value
+//	c <n>               n x EndMachineCycle -> NR52 #left #right cksumL cksumR bad ; internals
+//	                    (cksum over round(sample*19200) of the samples emitted during the op,
+//	                     bad = samples that are not finite or outside [0,1))
+//	st                  -> "st ; internals"
+//	wf                  -> dutyIndex1 dutyIndex2 wavePosition lfsr
+//	m <ch> <k> <limit>  run machine cycles until >= k waveform steps of channel ch were seen
+//	                    -> first stepsAtFirst total steps  |  limit <steps>
+//	tk <hex>            VerifSetTicks                                                          -> ok
 func init() { modes["apu"] = modeFn{gen: apuGen, replay: apuReplay} }
 
 const apuD = 19200 // common denominator of the exact sample value (see Model/Apu.lean)
